@@ -186,6 +186,10 @@ func (m *Manager) trySyncNextBlock(ctx context.Context, daHeight uint64) error {
 		// Record sync metrics
 		m.recordSyncMetrics("block_applied")
 
+		// the block may already be marked as seen on the DA layer (its blobs were scanned before it could be
+		// applied): let the DA includer look at it now, nothing else will signal it once the chain stops growing
+		m.sendNonBlockingSignalToDAIncluderCh()
+
 		if daHeight > newState.DAHeight {
 			newState.DAHeight = daHeight
 		}
